@@ -96,16 +96,29 @@ package wkb
 //@     invariant [progress] old(ghost(r, "pos")) >= 0 && old(wfMLineBody(objOf(r), ghost(r, "pos"), orderCode(byteOrder))) && old(ghost(r, "pos") + 4 * tokU(ghostAt(r, "tok", ghost(r, "pos"))) < ghost(r, "n")) ==> numLineStrings == old(tokU(ghostAt(r, "tok", ghost(r, "pos")))) && ghost(r, "pos") == old(ghost(r, "pos")) + 1 + 4 * i && (forall k int :: 0 <= k && k < i ==> runAt(objOf(r), old(ghost(r, "pos")) + 1 + 4 * k + 3, tokU(ghostAt(r, "tok", old(ghost(r, "pos")) + 1 + 4 * k)), lineStrings[k]))
 //@     decreases numLineStrings - i
 
-// multiPolygonReader: safety and result type only. Its read-back needs member offsets that are
-// prefix sums over ring-count tokens (variable stride) plus a monotonicity lemma over them; not done.
+// offset (in tokens, from the first member) of member k of a multi polygon body starting at b: each
+// member polygon occupies 3 + 2 * (its ring count token) tokens
+//@ spec mpTokOff(s int, b int, k int) int decreases k = k <= 0 ? 0 : mpTokOff(s, b, k-1) + 3 + 2 * tokU(ghostAtO(s, "tok", b + 1 + mpTokOff(s, b, k-1) + 2))
+//@ pred wfMPolyBody(s int, b int, oc int) = tokKind(ghostAtO(s, "tok", b)) == 2 && tokOrder(ghostAtO(s, "tok", b)) == oc && 0 <= tokU(ghostAtO(s, "tok", b)) && tokU(ghostAtO(s, "tok", b)) <= 4294967295 && (forall k int :: {mpTokOff(s, b, k)} 0 <= k && k < tokU(ghostAtO(s, "tok", b)) ==> mpTokOff(s, b, k) >= 0 && wfPolyEnc(s, b + 1 + mpTokOff(s, b, k)))
+
+//@ lemma mpTokOff_end(s int, b int, c int)
+//@   induction c
+//@   requires c >= 0 && (forall k int :: {mpTokOff(s, b, k)} 0 <= k && k < c ==> tokU(ghostAtO(s, "tok", b + 1 + mpTokOff(s, b, k) + 2)) >= 0)
+//@   ensures forall a int :: {mpTokOff(s, b, a)} 0 <= a && a < c ==> mpTokOff(s, b, a) + 3 + 2 * tokU(ghostAtO(s, "tok", b + 1 + mpTokOff(s, b, a) + 2)) <= mpTokOff(s, b, c)
+
 //@ func multiPolygonReader
 //@   prop C07, C05
 //@   mode ufloat
 //@   requires [reader] typeof(r) != nil && typeof(byteOrder) != nil
 //@   ensures [geometry_or_error] result1 == nil ==> typeof(result0) == geom.MultiPolygon
+//@   ensures [reads_back] old(ghost(r, "pos")) >= 0 && old(wfMPolyBody(objOf(r), ghost(r, "pos"), orderCode(byteOrder))) && old(ghost(r, "pos") + mpTokOff(objOf(r), ghost(r, "pos"), tokU(ghostAt(r, "tok", ghost(r, "pos")))) < ghost(r, "n")) ==> result1 == nil && typeof(result0) == geom.MultiPolygon && len(result0.(geom.MultiPolygon)) == old(tokU(ghostAt(r, "tok", ghost(r, "pos")))) && (forall k int :: {mpTokOff(objOf(r), old(ghost(r, "pos")), k)} 0 <= k && k < len(result0.(geom.MultiPolygon)) ==> len(result0.(geom.MultiPolygon)[k]) == tokU(ghostAt(r, "tok", old(ghost(r, "pos")) + 1 + mpTokOff(objOf(r), old(ghost(r, "pos")), k) + 2)) && (forall j int :: 0 <= j && j < len(result0.(geom.MultiPolygon)[k]) ==> runAt(objOf(r), old(ghost(r, "pos")) + 1 + mpTokOff(objOf(r), old(ghost(r, "pos")), k) + 4 + 2 * j, tokU(ghostAt(r, "tok", old(ghost(r, "pos")) + 1 + mpTokOff(objOf(r), old(ghost(r, "pos")), k))), result0.(geom.MultiPolygon)[k][j]))) && ghost(r, "pos") == old(ghost(r, "pos")) + 1 + mpTokOff(objOf(r), old(ghost(r, "pos")), len(result0.(geom.MultiPolygon)))
+//@     using mpTokOff_end(objOf(r), old(ghost(r, "pos")), old(tokU(ghostAt(r, "tok", ghost(r, "pos")))))
 //@   modifies ghost(r, "pos")
 //@   loop 1 `for i := uint32(0); i < numPolygons; i++`
-//@     invariant 0 <= i && i <= numPolygons && len(polygons) == numPolygons && fresh(polygons)
+//@     invariant [basic] 0 <= i && i <= numPolygons && len(polygons) == numPolygons && fresh(polygons) && numPolygons <= 4294967295
+//@     invariant [progress] old(ghost(r, "pos")) >= 0 && old(wfMPolyBody(objOf(r), ghost(r, "pos"), orderCode(byteOrder))) && old(ghost(r, "pos") + mpTokOff(objOf(r), ghost(r, "pos"), tokU(ghostAt(r, "tok", ghost(r, "pos")))) < ghost(r, "n")) ==> numPolygons == old(tokU(ghostAt(r, "tok", ghost(r, "pos")))) && ghost(r, "pos") == old(ghost(r, "pos")) + 1 + mpTokOff(objOf(r), old(ghost(r, "pos")), i) && (forall k int :: {mpTokOff(objOf(r), old(ghost(r, "pos")), k)} 0 <= k && k < i ==> len(polygons[k]) == tokU(ghostAt(r, "tok", old(ghost(r, "pos")) + 1 + mpTokOff(objOf(r), old(ghost(r, "pos")), k) + 2)) && (forall j int :: 0 <= j && j < len(polygons[k]) ==> runAt(objOf(r), old(ghost(r, "pos")) + 1 + mpTokOff(objOf(r), old(ghost(r, "pos")), k) + 4 + 2 * j, tokU(ghostAt(r, "tok", old(ghost(r, "pos")) + 1 + mpTokOff(objOf(r), old(ghost(r, "pos")), k))), polygons[k][j])))
+//@     invariant [members_fit] old(ghost(r, "pos")) >= 0 && old(wfMPolyBody(objOf(r), ghost(r, "pos"), orderCode(byteOrder))) && old(ghost(r, "pos") + mpTokOff(objOf(r), ghost(r, "pos"), tokU(ghostAt(r, "tok", ghost(r, "pos")))) < ghost(r, "n")) ==> (forall a int :: {mpTokOff(objOf(r), old(ghost(r, "pos")), a)} 0 <= a && a < old(tokU(ghostAt(r, "tok", ghost(r, "pos")))) ==> old(ghost(r, "pos")) + mpTokOff(objOf(r), old(ghost(r, "pos")), a) + 3 + 2 * tokU(ghostAt(r, "tok", old(ghost(r, "pos")) + 1 + mpTokOff(objOf(r), old(ghost(r, "pos")), a) + 2)) < ghost(r, "n"))
+//@     using mpTokOff_end(objOf(r), old(ghost(r, "pos")), old(tokU(ghostAt(r, "tok", ghost(r, "pos")))))
 //@     decreases numPolygons - i
 
 //@ func geometryCollectionReader
